@@ -149,6 +149,7 @@ package strategy
 //@ loop#0 invariant buy == cntact(acs, old(consumed(acs[0])), Buy, idx0) && sell == cntact(acs, old(consumed(acs[0])), Sell, idx0) && buy + hold + sell == idx0 && buy >= 0 && hold >= 0 && sell >= 0
 //@ loop#0 invariant forall j :: 0 <= j && j < idx0 ==> consumed(acs[j]) == old(consumed(acs[j])) + 1 && old(consumed(acs[j])) < len(acs[j])
 //@ loop#0 invariant forall j :: idx0 <= j && j < len(acs) ==> consumed(acs[j]) == old(consumed(acs[j]))
+//@ loop#1 invariant true
 
 // all K sources agree on v at position t  <==>  the tally of v is K   (what "and" means)
 //@ lemma cnt_all(A chanslice, t int, v int, i int)
